@@ -142,6 +142,8 @@ pub struct World {
     /// Objects in never-collected spaces that became unreachable (still must stay intact).
     pub immortal_dead: BTreeSet<u64>,
     pub oom_events: Vec<(usize, u64, u64)>, // (tls, step, pauses_done)
+    /// reference objects for which clear_referent was ever called
+    pub cleared_ever: BTreeSet<u64>,
     /// event histories of the property-specific oracles (oracle2.rs)
     pub hist: crate::oracle2::Hist,
     pub blocked_for_gc: [bool; MAX_MUT],
@@ -755,6 +757,10 @@ pub fn on_clear_referent(r: ObjectReference) {
     let h = hdr_of(r);
     with_world(|w| {
         w.pause.cleared.push(h.id);
+        // (also remembered across pauses: a reference object that is cleared while unreachable
+        // and resurrected later -- through a finalizable object that refers to it -- shows its
+        // null referent only in a later pause)
+        w.cleared_ever.insert(h.id);
     });
 }
 
